@@ -98,7 +98,10 @@ func (f *rawFileWriter) Close() error {
 	}
 
 	verifPathPoint(VpFileBeforeFlush, f.fd.Name())
-	f.w.Flush()
+	if err := f.w.Flush(); err != nil {
+		f.fd.Close()
+		return err
+	}
 	verifPathPoint(VpFileBeforeClose, f.fd.Name())
 	defer verifPathPoint(VpFileClosed, f.fd.Name())
 	return f.fd.Close()
